@@ -1405,6 +1405,11 @@ class Evaluator:
                     hi = self.eval1(e.slice.upper, s, func) if e.slice.upper is not None else NONE
                     if e.slice.step is not None:
                         outs.append((s, ("slice3", b, lo, hi, self.eval1(e.slice.step, s, func))))
+                    elif b[0] in ("tuplelit", "listlit") and not any(x[0] == "star" for x in b[1]) and all(
+                            z == NONE or (z[0] == "const" and isinstance(z[1], int)) for z in (lo, hi)):
+                        # a literal sequence sliced at constant positions
+                        items = b[1][(None if lo == NONE else lo[1]):(None if hi == NONE else hi[1])]
+                        outs.append((s, (b[0], tuple(items))))
                     else:
                         outs.append((s, ("slice", b, lo, hi)))
                 else:
@@ -1512,6 +1517,15 @@ class Evaluator:
                 if f is not None:
                     return [(state, ("boundref", f.qname, b if f.is_classmethod else None))]
             return [(state, ("attr", b, attr))]
+        if b[0] == "super" and isinstance(b[1], str) and b[1] in self.model.classes:
+            # super().m: the next definition of m after the current class in its MRO, bound to the same object
+            k0 = self.model.classes[b[1]]
+            for base in k0.mro()[1:]:
+                f = base.methods.get(attr) if hasattr(base, "methods") else None
+                if f is not None:
+                    if f.is_property:
+                        return self.inline(f, [], {}, state, func, line, self_term=b[2])
+                    return [(state, ("superbound", f.qname, b[2]))]
         c = self.cls_of(b)
         if c is not None and attr == "__class__":
             return [(state, ("ref", c.qname))]
@@ -1908,6 +1922,13 @@ class Evaluator:
                 # Class.method(instance, ...)
                 if args:
                     return self.inline(r, args[1:], kwargs, state, func, line, self_term=args[0])
+        if h == "superbound":
+            r = self.model.functions.get(f[1])
+            if r is not None:
+                self.calls_resolved += 1
+                if r.qname in self.primitives:
+                    return [(state, self.prim_meth(f[2], r, args, kwargs))]
+                return self.inline(r, args, kwargs, state, func, line, self_term=f[2])
         if h == "bound":
             recv, name = f[1], f[2]
             c = self.cls_of(recv)
